@@ -68,6 +68,11 @@ def two_origin_main(facts, cfg_c, cfg_i):
         '  verif::emit("C09", "two-origins:import-rejects-locator-without-runtime", "throws", t5, what);',
         f'  bool t6 = throws([&]{{ {create_t} tmp(partial, {log}"c3"); }}, what);',
         '  verif::emit("C09", "two-origins:create-rejects-locator-with-dispatcher", "throws", t6, what);',
+        # REPRESENTATION: the prototype handed over as a const reference and as a temporary
+        f'  {{ const dzn::locator& cproto = proto; bool t7 = throws([&]{{ {create_t} tmp(cproto, {log}"c4"); }}, what);',
+        '    verif::emit("C09", "two-origins:create-from-const-prototype", "constructs", !t7, what); }',
+        f'  {{ bool t8 = throws([&]{{ {create_t} tmp(proto.clone(), {log}std::string("c") + "5"); }}, what);',
+        '    verif::emit("C09", "two-origins:create-from-temporary-prototype", "constructs", !t8, what); }',
         '  is.reset(); cs.reset();',
         '  verif::emit("LAB", "done", "main", true, "");', '  return 0; }']
     return '\n'.join(lines) + '\n'
